@@ -522,18 +522,6 @@ def check_nlpadmm(ctx, model, rng):
                       "estim.nlpadmm: property fails on the implementation")
 
 
-def known_of_diag(case, impl, mod):
-    """classification of a disagreement as an instance of a listed finding"""
-    if case["what"] == "diagnorm":
-        if case["form"] == "block":
-            return "diag-norm-block"
-        if case.get("input_shape") is not None and tuple(case["input_shape"]) != tuple(case["dshape"]):
-            return "diag-norm-broadcast"
-    if case["what"] == "sidnorm" and case.get("nested"):
-        return "diag-norm-block"
-    return None
-
-
 def check_diagnorm(ctx, model, case):
     D = _build_diag(case)
     o = ord_from_json(case["ord"])
@@ -551,11 +539,11 @@ def check_diagnorm(ctx, model, case):
     ctx.count(f"ord:{case['ord']}")
     if r[0] == "err" or m[0] == "err":
         if not (r[0] == "err" and m[0] == "err" and r[1] == m[1]):
-            ctx.disagree("estim.diagnorm.reject", case, list(map(str, r)), list(map(str, m)), oracle=oracle, known_id=known_of_diag(case, r, m))
+            ctx.disagree("estim.diagnorm.reject", case, list(map(str, r)), list(map(str, m)), oracle=oracle)
         return
     got = _scalar(r[1])
     if got is None or not common.close(got, b2f(m[1]), 16, 1e-9):
-        ctx.disagree("estim.diagnorm", case, got if got is not None else str(r[1]), b2f(m[1]), oracle=oracle, known_id=known_of_diag(case, r, m))
+        ctx.disagree("estim.diagnorm", case, got if got is not None else str(r[1]), b2f(m[1]), oracle=oracle)
 
 
 def check_sidnorm(ctx, model, case):
@@ -569,11 +557,11 @@ def check_sidnorm(ctx, model, case):
     ctx.count(f"sidnorm:{'nested' if case.get('nested') else 'plain'}:{'valid' if valid else 'invalid'}")
     if r[0] == "err" or m[0] == "err":
         if not (r[0] == "err" and m[0] == "err" and r[1] == m[1]):
-            ctx.disagree("estim.sidnorm.reject", case, list(map(str, r)), list(map(str, m)), oracle=oracle, known_id=known_of_diag(case, r, m))
+            ctx.disagree("estim.sidnorm.reject", case, list(map(str, r)), list(map(str, m)), oracle=oracle)
         return
     got = _scalar(r[1])
     if got is None or not common.close(got, b2f(m[1]), 16, 1e-9):
-        ctx.disagree("estim.sidnorm", case, got if got is not None else str(r[1]), b2f(m[1]), oracle=oracle, known_id=known_of_diag(case, r, m))
+        ctx.disagree("estim.sidnorm", case, got if got is not None else str(r[1]), b2f(m[1]), oracle=oracle)
 
 
 def check_matnorm(ctx, model, M):
@@ -726,20 +714,11 @@ def correspond(ctx, model):
     check_matnorm(ctx, model, np.diag([1.0, -3.0, 2.0]))
 
 
-WITNESS = {"diag-norm-broadcast": "diag_norm_broadcast.json", "diag-norm-block": "diag_norm_block.json"}
-
-
 def findings(ctx, model):
-    common.setup_scico()
-    for fid, fname in WITNESS.items():
-        if not ctx.is_known(fid):
-            continue
-        p = common.CORPUS_DIR / PROP / fname
-        if not p.exists():
-            raise common.Infra(f"witness {p} of known finding {fid} missing")
-        case = json.loads(p.read_text())
-        r = oracle(case.get("case", case))
-        ctx.known_finding(fid, r is not None, detail=(r or {}).get("why", ""))
+    """no listed finding of the current tree concerns C17: the four defects found (PDHG factor, maxiter=0,
+    Diagonal.norm broadcast / block) were repaired - `fixed:` lines of known_findings.txt; the witnesses are
+    regression cases in corpus/C17"""
+    return None
 
 
 def search(ctx, model, why):
